@@ -1449,6 +1449,8 @@ class FDE:
                 return ExcValue(n, args)
             if n == 'id' and len(args) == 1 and n not in env:
                 return id(args[0])
+            if n in ('str', 'repr') and len(args) == 1 and n not in env and isinstance(args[0], (Obj, Opaque)):
+                return Opaque('%s(%s)' % (n, getattr(args[0], 'name', '?')))       # text of an abstract object: some string
             if n in _PURE_BUILTINS and n not in env and all(_concrete(a) for a in args) and all(_concrete(v) for v in kwargs.values()):
                 try:
                     r = _PURE_BUILTINS[n](*args, **kwargs)
